@@ -59,6 +59,7 @@ ObsOK(e) ==
     CASE e.op = "interp"   -> \A c \in 1..Len(st) : LET z == InterpAt(st[c], e.q) IN QIsZero(z.im) /\ z.re = QOf(e.val[c])
       [] e.op = "spectrum" -> \A c \in 1..Len(st) : SeqQEq(e.val[c], SpecOf(st[c]))
       [] e.op = "metric"   -> /\ MeanSq(st) = QOf(e.mse) /\ BandSq(st, e.lo, e.hi) = QOf(e.band) /\ GradSq(st) = QOf(e.grad)
+      [] e.op = "coefs"    -> \A c \in 1..Len(st) : FromLog(e.val[c]) = CoefOf(st[c])          \* keyed by the stored index instead of the wavenumber
 
 \* an observation the driver could not rationalise: the machine's own value must have a denominator above the driver's bound
 BigQ(q) == q[2] > MaxDen
@@ -66,6 +67,7 @@ ObsBig(e) ==
     CASE e.op = "interp"   -> \E c \in 1..Len(st) : BigQ(InterpAt(st[c], e.q).re)
       [] e.op = "spectrum" -> \E c \in 1..Len(st) : \E b \in DOMAIN SpecOf(st[c]) : BigQ(SpecOf(st[c])[b])
       [] e.op = "metric"   -> BigQ(MeanSq(st)) \/ BigQ(BandSq(st, e.lo, e.hi)) \/ BigQ(GradSq(st))
+      [] e.op = "coefs"    -> BigDen([c \in 1..Len(st) |-> CoefOf(st[c])])
 
 TInit == /\ l = 1 /\ D = 1 /\ N = 3 /\ st = <<FZero>> /\ last = [op |-> "none"] /\ nl = 0 /\ len = 0 /\ fam = "none"
 StartSession == LET e == Trace[l] IN
@@ -78,7 +80,7 @@ Call == LET e == Trace[l] IN
           /\ N' = (IF e.op = "resample" THEN e.M ELSE N)
     /\ last' = Label(e) /\ len' = len + 1 /\ UNCHANGED <<D, nl, fam>>
 Look == LET e == Trace[l] IN
-    /\ e.op \in {"interp", "spectrum", "metric"} /\ Guard(e) /\ (IF e.unrat THEN ObsBig(e) ELSE ObsOK(e))
+    /\ e.op \in {"interp", "spectrum", "metric", "coefs"} /\ Guard(e) /\ (IF e.unrat THEN ObsBig(e) ELSE ObsOK(e))
     /\ last' = [op |-> "traced"] /\ len' = len + 1 /\ UNCHANGED <<D, N, st, nl, fam>>
 TNext == l <= Len(Trace) /\ l' = l + 1 /\ (StartSession \/ Call \/ Look)
 TSpec == TInit /\ [][TNext]_tvars
